@@ -99,7 +99,9 @@ let handle = function
   | ["pn"; h; pos] ->
       let m = bytes_of_hex h in
       (match parse_ref m (n_of_int (int_of_string pos)) (mlen m) with
-       | Ok p -> (match parsed_to_name m p with Ok b -> "Ok:" ^ hex_of_bytes b | _ -> "Bad")
+       | Ok p -> (match parsed_flatten m p, parsed_to_name m p with
+                  | Ok b, Ok b' when b = b' -> "Ok:" ^ hex_of_bytes b
+                  | _ -> "Bad")
        | Err _ -> "Err" | Panic _ -> "Panic" | OutOfFuel -> "OutOfFuel")
   | ["unc"; h] -> show_p (fun b -> if b then "A" else "R") (uncertain_check (bytes_of_hex h))
   | ["chainu"; k; l; r] -> show_w (chain_new_uncertain (k = "R") (nat_arg l) (nat_arg r))
@@ -109,6 +111,8 @@ let handle = function
   | ["starts"; k; h; b] ->
       let root = if k = "A" then [[]] else [] in
       if starts_with (parse_labels (bytes_of_hex h) @ root) (parse_labels (bytes_of_hex b) @ root) then "true" else "false"
+  | ["chroot"; h] -> show_p (fun l -> "Ok:" ^ hex_of_bytes l) (n_chain_root (bytes_of_hex h))
+  | ["uchain"; k; l; r] -> show_p (fun l -> "Ok:" ^ hex_of_bytes l) (unc_chain (k = "A") (bytes_of_hex l) (bytes_of_hex r))
   | ["intorel"; h] -> show_p (fun l -> "Ok:" ^ hex_of_bytes l) (n_into_relative (bytes_of_hex h))
   | ["intoabs"; h] -> show_p (fun l -> "Ok:" ^ hex_of_bytes l) (n_into_absolute None (bytes_of_hex h))
   | ["txt"; cs] ->
